@@ -323,6 +323,54 @@ def build_ui_json(case, env, fxpath):
     return uj
 
 
+VO = {
+    None: None,
+    "ignore": {"ignore_list": ()},  # valid user options WITHOUT the update_enabled key
+    "ue-true": {"update_enabled": True},
+    "ue-false": {"update_enabled": False},
+}
+
+
+def cfg_kwargs(case) -> dict:
+    """Fresh keyword arguments (InputFile mutates the options dict) of the case's configuration."""
+    cfg = case.get("cfg", {})
+    kw = {}
+    if "validate" in cfg:
+        kw["validate"] = cfg["validate"]
+    vo = VO[cfg.get("vo")]
+    if vo is not None:
+        kw["validation_options"] = dict(vo)
+    return kw
+
+
+def _kept(case, ops, snapshot, env, rev, stage, viol):
+    """set-value-kept: a value the library accepted through set_data_value / the data setter
+    is the parameter value of the input file (it is what must be written and read back)."""
+    last = {}
+    for op, name, val in ops:
+        last[name] = (op, val)
+    for name, (op, val) in last.items():
+        given = nv(dec(val, env), rev)
+        if '"v": "?"' in json.dumps(given) and given["k"] in ("uuid", "list"):
+            continue  # identifier of no workspace entity
+        have = snapshot["data"].get(name, {"k": "missing"})
+        spec = form_of(case, name)
+        tmpl = spec["t"] if spec else f"base:{name}"
+        if have != given and not equivalent(given, have, tmpl, name):
+            ctx = _context(case, name)
+            viol.append(
+                (
+                    "set-value-kept",
+                    f"{stage}{'set_data_value' if op == 'set' else 'data setter'}: given {_coarse(given)}, data holds {_coarse(have)} [{ctx}]",
+                    {"key": name, "given": given, "data": have, "cfg": case.get("cfg")},
+                )
+            )
+
+
+def _coarse(n):
+    return "none" if n["k"] == "none" else ("missing" if n["k"] == "missing" else "value")
+
+
 def apply_ops(ifile, ops, env):
     for op, name, val in ops:
         value = dec(val, env)
@@ -391,6 +439,13 @@ def execute(case) -> dict:
     from geoh5py.shared.utils import fetch_active_workspace
     from geoh5py.ui_json import InputFile
 
+    if not case.get("cfg", {}).get("validate", True):
+        for _, name, val in case.get("pre", []) + case.get("mid", []):
+            if val is None and _context(case, name) == "required":
+                # None is the value kind of DISABLED parameters; a parameter without optional /
+                # group / dependency / enabled member cannot be disabled: outside the domain
+                # (with validate=True the library itself refuses it)
+                return {"outcome": "excluded-none-for-required", "viol": [], "n_exec": 0, "s0": None}
     world.reset("asc")
     fxpath, handles, other = fixture(case.get("fx", "small"))
     cdir = case_dir()
@@ -412,7 +467,7 @@ def execute(case) -> dict:
             try:
                 uj = build_ui_json(case, env, fxpath)
                 res["n_exec"] += 1
-                ifile = InputFile(ui_json=uj)
+                ifile = InputFile(ui_json=uj, **cfg_kwargs(case))
                 _ = ifile.data
             except Exception as err:  # pylint: disable=broad-except
                 res["outcome"] = "refused-construct:" + type(err).__name__
@@ -425,6 +480,7 @@ def execute(case) -> dict:
                 return res
             s0 = snap(ifile, rev)
             res["s0"] = s0
+            _kept(case, case.get("pre", []), s0, env, rev, "", viol)
             if any(_has_nan(v) for v in s0["data"].values()):
                 res["outcome"] = "excluded-nan"
                 return res
@@ -449,7 +505,7 @@ def execute(case) -> dict:
         # ---- first read --------------------------------------------------------
         res["n_exec"] += 1
         try:
-            r1 = InputFile.read_ui_json(path1)
+            r1 = InputFile.read_ui_json(path1, **cfg_kwargs(case))
             _ = r1.data
             s1 = snap(r1, rev)
         except Exception as err:  # pylint: disable=broad-except
@@ -471,11 +527,14 @@ def execute(case) -> dict:
             res["outcome"] = "refused-mid-op:" + type(err).__name__
             return res
         s1b = snap(r1, rev)
+        if first_ok and case.get("mid"):
+            with fetch_active_workspace(r1.geoh5):
+                _kept(case, case.get("mid", []), s1b, env2, rev, "second-cycle ", viol)
         res["n_exec"] += 2
         try:
             path2 = r1.write_ui_json(name="second", path=str(cdir))
             text2 = Path(path2).read_text(encoding="utf-8")
-            r2 = InputFile.read_ui_json(path2)
+            r2 = InputFile.read_ui_json(path2, **cfg_kwargs(case))
             _ = r2.data
             s2 = snap(r2, rev)
         except Exception as err:  # pylint: disable=broad-except
@@ -666,9 +725,24 @@ def _transition(b, a, tmpl=None, key=None):
     return f"{kb} -> {ka}", False
 
 
+def _incoherent(case, before, key) -> bool:
+    """With update_enabled=False the caller, not the library, keeps `enabled` in line with
+    the values: a parameter that holds a value but is flagged disabled (or holds None but is
+    flagged enabled) when it is written is outside the domain."""
+    if case.get("cfg", {}).get("vo") != "ue-false" or key not in before["enabled"]:
+        return False
+    spec = form_of(case, key)
+    if spec is None or _own(spec) == "required":
+        return False
+    has_value = before["data"].get(key, {"k": "none"})["k"] != "none"
+    return has_value != (before["enabled"][key] is True)
+
+
 def _compare(case, before, after, stage, viol, text) -> bool:
     ok = True
     for key in before["data"]:
+        if _incoherent(case, before, key):
+            continue
         b = before["data"][key]
         a = after["data"].get(key, {"k": "missing"})
         spec = form_of(case, key)
@@ -697,7 +771,7 @@ def _compare(case, before, after, stage, viol, text) -> bool:
             viol.append(("values-roundtrip", f"{stage}extra parameter after reading", {"key": key}))
     for key, b in before["enabled"].items():
         a = after["enabled"].get(key, "missing")
-        if a != b:
+        if a != b and not _incoherent(case, before, key):
             val = "none" if before["data"].get(key, {"k": "missing"})["k"] == "none" else "value"
             ctx = _context(case, key)
             if (
